@@ -164,27 +164,35 @@ Lemma Ball_NDot_linear_q e0 e1 e2 e3' d0 d1 d2 d3 t w :
 Proof. d3v w. apply NQ_linear. Qed.
 
 (** LineOrientation / FreeLine, quaternion coordinates: N(q) = N_Q(q) R_FM(q) P depends on q also through R_FM.
-    The true derivative along the motion with speeds u is  NDot v = N_Q(qdot) R (v,0) + N_Q(q) R ((u,0) x (v,0)). *)
-Definition Line_NDotq_true (e ed : Vec4 R) (u v : Vec2 R) : Vec4 R :=
-  v4_add ROps (Ball_NDotq ROps ed (m33_mulv ROps (quatR ROps e) (up3 ROps v)))
-              (Ball_Nq ROps e (m33_mulv ROps (quatR ROps e) (v3_cross ROps (up3 ROps u) (up3 ROps v)))).
-Lemma Line_NDot_true_jet_q (i : nat) e0 e1 e2 e3' u0 u1 v0 v1 : (i < 4)%nat -> e0*e0+e1*e1+e2*e2+e3'*e3' = 1 ->
+    multiplyByNDot (after fix a24f10ba; C05_Model.Line_NDotq) IS the time derivative of N as an operator: for every
+    fixed vector v, along the motion with speeds u *)
+Lemma Line_NDot_jet_q (i : nat) e0 e1 e2 e3' u0 u1 v0 v1 : (i < 4)%nat -> e0*e0+e1*e1+e2*e2+e3'*e3' = 1 ->
   let qd := Line_Nq ROps (e0,e1,e2,e3') (u0,u1) in
   is_derive (fun t => e4 i (Line_Nq ROps (e0 + t*v4_0 qd, e1 + t*v4_1 qd, e2 + t*v4_2 qd, e3' + t*v4_3 qd) (v0,v1))) 0
-            (e4 i (Line_NDotq_true (e0,e1,e2,e3') qd (u0,u1) (v0,v1))).
+            (e4 i (Line_NDotq ROps (e0,e1,e2,e3') qd (u0,u1) (v0,v1))).
 Proof. intros Hi Hn qd; subst qd. assert (Hz : e0*e0+e1*e1+e2*e2+e3'*e3' <> 0) by lra.
-  destruct i as [|[|[|[|i]]]]; try lia; clear Hi; unfold e4, Line_NDotq_true; cunf;
+  destruct i as [|[|[|[|i]]]]; try lia; clear Hi; unfold e4; cunf;
   (auto_derive; [ repeat split; rewrite ?Rmult_0_l, ?Rplus_0_r; auto
                 | rewrite ?Rmult_0_l, ?Rplus_0_r; field_simplify_eq; auto; cbv [Rpow_def.pow]; nsatz_or_fail ]). Qed.
-(** what multiplyByNDot implements (N_Q(qdot) R only) agrees with it on the current speeds ... *)
-Lemma Line_NDot_impl_on_u e0 e1 e2 e3' ed u : e0*e0+e1*e1+e2*e2+e3'*e3' <> 0 ->
-  Line_NDotq_impl ROps (e0,e1,e2,e3') ed u = Line_NDotq_true (e0,e1,e2,e3') ed u u.
-Proof. intros Hn. destruct ed as [[[d0 d1] d2] d3]. destruct u as [u0 u1]. unfold Line_NDotq_true. cunf. teq; field; auto. Qed.
-(** ... but not on other vectors: as an operator it is NOT the time derivative of N.
-    Witness: q = identity, u = (1,0), v = (0,1). *)
-Lemma Line_NDot_impl_refuted : exists e u v, v4_normSqr ROps e = 1 /\
-  let qd := Line_Nq ROps e u in Line_NDotq_impl ROps e qd v <> Line_NDotq_true e qd u v.
-Proof. exists (1,0,0,0), (1,0), (0,1). split; [ vunf; ring | ]. cbv zeta. unfold Line_NDotq_true. cunf. intros C. injection C; intros. lra. Qed.
+(** regression lemmas about the expression used before the fix (N_Q(qdot) R only): it agrees with NDot on the current
+    speeds (which is why calcQDotDot was right) ... *)
+Lemma Line_NDot_prefix_on_u e0 e1 e2 e3' ed u : e0*e0+e1*e1+e2*e2+e3'*e3' <> 0 ->
+  Line_NDotq_prefix ROps (e0,e1,e2,e3') ed u = Line_NDotq ROps (e0,e1,e2,e3') ed u u.
+Proof. intros Hn. destruct ed as [[[d0 d1] d2] d3]. destruct u as [u0 u1]. cunf. teq; field; auto. Qed.
+(** ... but not on other vectors: as an operator it was NOT the time derivative of N.
+    Witness: q = identity, u = (1,0), v = (0,1) (run as a fixed regression case by harness/C03_search.cpp). *)
+Lemma Line_NDot_prefix_refuted : exists e u v, v4_normSqr ROps e = 1 /\
+  let qd := Line_Nq ROps e u in Line_NDotq_prefix ROps e qd v <> Line_NDotq ROps e qd u v.
+Proof. exists (1,0,0,0), (1,0), (0,1). split; [ vunf; ring | ]. cbv zeta. cunf. intros C. injection C; intros. lra. Qed.
+(** qdotdot for LineOrientation / FreeLine: d/dt (N(q) u) = N udot + NDot u *)
+Lemma Line_qdd_jet_q (i : nat) e0 e1 e2 e3' u0 u1 b0 b1 : (i < 4)%nat -> e0*e0+e1*e1+e2*e2+e3'*e3' = 1 ->
+  let qd := Line_Nq ROps (e0,e1,e2,e3') (u0,u1) in
+  is_derive (fun t => e4 i (Line_Nq ROps (e0 + t*v4_0 qd, e1 + t*v4_1 qd, e2 + t*v4_2 qd, e3' + t*v4_3 qd) (u0 + t*b0, u1 + t*b1))) 0
+            (e4 i (v4_add ROps (Line_Nq ROps (e0,e1,e2,e3') (b0,b1)) (Line_NDotq ROps (e0,e1,e2,e3') qd (u0,u1) (u0,u1)))).
+Proof. intros Hi Hn qd; subst qd. assert (Hz : e0*e0+e1*e1+e2*e2+e3'*e3' <> 0) by lra.
+  destruct i as [|[|[|[|i]]]]; try lia; clear Hi; unfold e4; cunf;
+  (auto_derive; [ repeat split; rewrite ?Rmult_0_l, ?Rplus_0_r; auto
+                | rewrite ?Rmult_0_l, ?Rplus_0_r; field_simplify_eq; auto; cbv [Rpow_def.pow]; nsatz_or_fail ]). Qed.
 
 (** ** qdotdot = N udot + NDot u is the time derivative of qdot = N(q) u along q' = qdot, u' = udot *)
 Lemma dV_affine w b : dV (fun t => (v3_0 w + t * v3_0 b, v3_1 w + t * v3_1 b, v3_2 w + t * v3_2 b)) b.
@@ -235,6 +243,12 @@ Proof. unfold Line_Ne, Line_NTe. generalize (cNB_q ROps a). intros A. d33 A; d3v
 Lemma Line_NInvT_adjoint_q e g qd : v2_dot ROps g (Line_NInvq ROps e qd) = v4_dot ROps (Line_NInvTq ROps e g) qd.
 Proof. unfold Line_NInvq, Line_NInvTq. rewrite <- NInvT_adjoint_q. generalize (Ball_NInvq ROps e qd) (quatR ROps e). intros y A.
   d33 A; d3v y; destruct g. cbv [up3 dn2]. vunf. ring. Qed.
+Lemma Line_NDotT_adjoint_q e ed u f v : v4_dot ROps f (Line_NDotq ROps e ed u v) = v2_dot ROps (Line_NDotTq ROps e ed u f) v.
+Proof. unfold Line_NDotq, Line_NDotTq. 
+  assert (E : forall a b, v4_dot ROps f (v4_add ROps a b) = v4_dot ROps f a + v4_dot ROps f b)
+    by (intros [[[? ?] ?] ?] [[[? ?] ?] ?]; destruct f as [[[? ?] ?] ?]; vunf; ring).
+  rewrite E, NDotT_adjoint_q, NT_adjoint_q. generalize (Ball_NDotTq ROps ed f) (Ball_NTq ROps e f) (quatR ROps e). intros y z A.
+  d33 A; d3v y; d3v z; destruct u; destruct v. cbv [up3 dn2]. vunf. ring. Qed.
 Lemma Line_NInvT_adjoint_e a g qd : v2_dot ROps g (Line_NInve ROps a qd) = v3_dot ROps (Line_NInvTe ROps a g) qd.
 Proof. unfold Line_NInve, Line_NInvTe. generalize (cNInvB_q ROps a). intros A. d33 A; d3v qd; destruct g. cbv [up3 dn2]. vunf. ring. Qed.
 
